@@ -76,6 +76,31 @@ def _content_writer(pkg):
     return pkg.expanded("BaseConfiguration", "content")
 
 
+def _render_handle(pkg):
+    """RenderCommand.handle as the rules read it: helpers of the class / the module put back, one-expression module helpers replaced by
+    what they return where they stand inside an expression (`Network(rate_modifier=_with_int_keys(t))`), and a keyword table handed on
+    with `**` written out as the keywords it holds"""
+    cache = pkg.__dict__.setdefault("_render_handle", {})
+    if "fn" not in cache:
+        import copy
+        from ..normalize import expand_kwargs_dicts, _ExprInliner
+        fn = copy.deepcopy(pkg.expanded("RenderCommand", "handle", keep=("option", "confirm", "call", "line", "argument")))
+
+        def helper(call):
+            f = call.func
+            if isinstance(f, ast.Name) and (RENDER, f.id) in pkg.functions:
+                return pkg.functions[(RENDER, f.id)], None
+            return None
+        try:
+            fn.body = [_ExprInliner(helper, None).visit(st) for st in fn.body]
+            ast.fix_missing_locations(fn)
+            expand_kwargs_dicts(fn)
+        except RecursionError:
+            pass
+        cache["fn"] = fn
+    return cache["fn"]
+
+
 def _init_handle(pkg):
     """InitCommand.handle with the parsing helpers it may have been split into put back; self.option / self.validate are the
     primitives the rules below speak about and stay calls"""
@@ -346,6 +371,31 @@ def _alias_paths(fn, root_names, derive=False):
     return reads, writes, var
 
 
+def _escaped_tables(fn, var):
+    """configuration tables (paths held by aliasing locals / subscripts of them) that are handed WHOLE to a call: whatever is read or
+    written below such a path happens out of this rule's sight"""
+    out = set()
+
+    def path_of(e):
+        if isinstance(e, ast.Name) and e.id in var:
+            return var[e.id]
+        if isinstance(e, ast.Subscript) and isinstance(e.slice, ast.Constant) and isinstance(e.slice.value, str):
+            b = path_of(e.value)
+            if b is not None:
+                return f"{b}.{e.slice.value}" if b else e.slice.value
+        return None
+    for c in ast.walk(fn):
+        if isinstance(c, ast.Call):
+            f = ast.unparse(c.func)
+            if f.split(".")[-1] in ("dumps", "len", "print", "get", "write", "table", "isinstance"):
+                continue
+            for a in list(c.args) + [k.value for k in c.keywords]:
+                p_ = path_of(a)
+                if p_ is not None:
+                    out.add(p_)
+    return out
+
+
 def check(ctx):
     pkg = package(ctx.tree)
     _r1(ctx, pkg)
@@ -359,6 +409,7 @@ def check(ctx):
     render_reads_only(ctx, pkg, "R10")
     _r11(ctx, pkg)
     _r12(ctx, pkg)
+    _r13(ctx, pkg)
 
 
 # ------------------------------------------------------------------ R12  every configured value reaches the API parameter it stands for
@@ -395,7 +446,7 @@ NEUTRAL_CALLS = {"Species", "int", "str", "float", "dict", "list", "set", "tuple
 
 
 def _r12(ctx, pkg):
-    rfn = pkg.method("RenderCommand", "handle")
+    rfn = _render_handle(pkg)
     root = _toml_root(rfn)
     taint = {root: {""}}          # local -> set of configuration paths its value derives from
 
@@ -497,6 +548,7 @@ def _r12(ctx, pkg):
                 if isinstance(e, ast.Name):
                     taint[e.id] = set(ps)
     n_ok = 0
+    esc12 = _escaped_tables(rfn, _alias_paths(rfn, {root: ""})[2])
     for path, sinks in sorted(SINKS.items()):
         got = reached.get(path, set())
         for callee, slot in sinks:
@@ -508,6 +560,8 @@ def _r12(ctx, pkg):
                 ctx.unrec("R12", key, (RENDER, rfn.lineno), f"cannot follow `{path}` from the parsed configuration (the key is not read by subscripting a local of handle())")
             elif strays.get(path):
                 ctx.unrec("R12", key, (RENDER, rfn.lineno), f"`{path}` is handed to {strays[path][0]}, which this rule does not follow")
+            elif any(path.startswith(q + ".") or q == "" for q in esc12):
+                ctx.unrec("R12", key, (RENDER, rfn.lineno), f"a table holding `{path}` is handed whole to a call this rule does not follow ({sorted(q for q in esc12 if path.startswith(q + '.') or q == '')[:2]})")
             else:
                 ctx.bad("R12", key, (RENDER, rfn.lineno),
                         f"the configured `{path}` never reaches {callee}({slot if slot != '=' else 'class table'}): the command-line rendering uses something else than what the "
@@ -624,6 +678,103 @@ def _whole(v, mod, depth=0):
 USER_PATHS = ("chemistry.", "ODEsolver.", "general.name", "general.description", "general.loads")
 
 
+def carries_whole(v: ast.AST, depth: int = 0):
+    """-> ('ok' | 'filtered' | 'unknown', detail) for an expression that stores / hands on a table or list it was given (X a name or an
+    attribute chain):  X, X.copy(), list(X) / dict(X) / tuple(X) / copy.copy(X) / copy.deepcopy(X), [*X] / {**X}, `<whole> if X else <empty>`,
+    `X or <empty>`, a comprehension that copies every entry (keys through int / str) are WHOLE;  a comprehension with a filter, filter(..),
+    a slice, set(..) / dict.fromkeys(..) / sorted(set(..)) DROP entries -- positive evidence;  anything else is not read here."""
+    empty = lambda x: (isinstance(x, (ast.List, ast.Tuple, ast.Dict, ast.Set)) and not (x.elts if not isinstance(x, ast.Dict) else x.keys)) or \
+        (isinstance(x, ast.Call) and isinstance(x.func, ast.Name) and x.func.id in ("list", "dict", "tuple") and not x.args and not x.keywords) or \
+        (isinstance(x, ast.Constant) and x.value in (None, ""))
+    if depth > 4:
+        return "unknown", "too deep"
+    if isinstance(v, (ast.Name, ast.Attribute)):
+        return "ok", "the value itself"
+    if isinstance(v, ast.IfExp):
+        arms = [carries_whole(x, depth + 1) for x in (v.body, v.orelse) if not empty(x)]
+        for st in ("filtered", "unknown"):
+            hit = [a for a in arms if a[0] == st]
+            if hit:
+                return hit[0]
+        return "ok", "whole on every arm"
+    if isinstance(v, ast.BoolOp) and isinstance(v.op, ast.Or):
+        arms = [carries_whole(x, depth + 1) for x in v.values if not empty(x)]
+        for st in ("filtered", "unknown"):
+            hit = [a for a in arms if a[0] == st]
+            if hit:
+                return hit[0]
+        return "ok", "the value or an empty default"
+    if isinstance(v, ast.Call):
+        f = ast.unparse(v.func)
+        if isinstance(v.func, ast.Attribute) and v.func.attr == "copy" and not v.args and not v.keywords:
+            return carries_whole(v.func.value, depth + 1)
+        if f in ("dict", "list", "tuple", "copy.deepcopy", "deepcopy", "copy.copy", "copy") and len(v.args) == 1 and not v.keywords:
+            return carries_whole(v.args[0], depth + 1)
+        if f in ("set", "frozenset", "filter") or f.endswith("fromkeys"):
+            return "filtered", f"`{ast.unparse(v)[:70]}` drops repeated / falsy entries"
+        if f == "sorted" and v.args and isinstance(v.args[0], ast.Call) and ast.unparse(v.args[0].func) in ("set", "frozenset"):
+            return "filtered", f"`{ast.unparse(v)[:70]}` drops repeated entries"
+        return "unknown", ast.unparse(v)[:70]
+    if isinstance(v, (ast.List, ast.Tuple)) and len(v.elts) == 1 and isinstance(v.elts[0], ast.Starred):
+        return carries_whole(v.elts[0].value, depth + 1)
+    if isinstance(v, ast.Dict) and len(v.keys) == 1 and v.keys[0] is None:
+        return carries_whole(v.values[0], depth + 1)
+    if isinstance(v, ast.Subscript) and isinstance(v.slice, ast.Slice):
+        if v.slice.lower is None and v.slice.upper is None and v.slice.step is None:
+            return carries_whole(v.value, depth + 1)
+        return "filtered", f"the slice `{ast.unparse(v)[:60]}` keeps part of the entries"
+    if isinstance(v, (ast.DictComp, ast.ListComp)):
+        if len(v.generators) != 1:
+            return "unknown", "nested comprehension"
+        g = v.generators[0]
+        if g.ifs:
+            return "filtered", f"entries are dropped by `if {ast.unparse(g.ifs[0])[:60]}`"
+        it = g.iter
+        if isinstance(it, ast.Call) and isinstance(it.func, ast.Attribute) and it.func.attr == "items" and not it.args:
+            it = it.func.value
+        st = carries_whole(it, depth + 1)
+        if st[0] != "ok":
+            return st
+        names = [n.id for n in ast.walk(g.target) if isinstance(n, ast.Name)]
+        if not names:
+            return "unknown", "comprehension target"
+        if isinstance(v, ast.DictComp):
+            kk = ast.unparse(v.key)
+            if kk not in (names[0], f"str({names[0]})", f"int({names[0]})") or not (isinstance(v.value, ast.Name) and v.value.id == names[-1]):
+                return "unknown", f"entries are rewritten: {kk}: {ast.unparse(v.value)[:40]}"
+        elif not (isinstance(v.elt, ast.Name) and v.elt.id == names[0]):
+            return "unknown", f"elements are rewritten: {ast.unparse(v.elt)[:40]}"
+        return "ok", "every entry is copied"
+    return "unknown", ast.unparse(v)[:70]
+
+
+def _r13(ctx, pkg):
+    """BaseConfiguration.__init__ is the input stage of the writer: every setting it is handed is stored WHOLE in the field content()
+    writes (the argument itself, a copy, an empty default when nothing was given).  A field computed by filtering the argument
+    (`[s for s in required_species if s not in self._allowedspecies]`) writes less than what was configured."""
+    init = pkg.cls("BaseConfiguration").methods["__init__"]
+    params = {a.arg for a in init.args.args if a.arg != "self"}
+    n = 0
+    for st in init.body:
+        if not (isinstance(st, ast.Assign) and len(st.targets) == 1 and isinstance(st.targets[0], ast.Attribute) and isinstance(st.targets[0].value, ast.Name)
+                and st.targets[0].value.id == "self"):
+            continue
+        used = {x.id for x in ast.walk(st.value) if isinstance(x, ast.Name) and x.id in params}
+        if not used:
+            continue
+        n += 1
+        key = f"BaseConfiguration.__init__: self.{st.targets[0].attr}"
+        state, why = carries_whole(st.value)
+        if state == "unknown":
+            ctx.unrec("R13", key, (CONF, st.lineno), f"cannot tell whether the whole setting is stored: {why}")
+        else:
+            ctx.check(state == "ok", "R13", key, (CONF, st.lineno), why if state == "ok" else
+                      f"`self.{st.targets[0].attr}` is not the setting it was given but a filtered version of it ({why}): entries the user configured never reach "
+                      "naunet_config.toml, and `naunet render` builds another network than the API call with the same arguments",
+                      expected=f"{sorted(used)[0]}.copy() if {sorted(used)[0]} else <empty>", found=ast.unparse(st.value)[:120])
+    ctx.floor("R13", "settings stored by BaseConfiguration.__init__", n, 20, (CONF, init.lineno))
+
+
 def _r9(ctx, pkg):
     mod = pkg.modules[CONF]
     cfn = _content_writer(pkg)
@@ -693,12 +844,16 @@ def _r1(ctx, pkg):
         return
     schema = _toml_paths(default)
     cfn = _content_writer(pkg)
-    _, writes, _ = _alias_paths(cfn, {_toml_root(cfn): ""})
-    rfn = pkg.method("RenderCommand", "handle")
+    _, writes, wvar = _alias_paths(cfn, {_toml_root(cfn): ""})
+    rfn = _render_handle(pkg)
     efn = pkg.method("ExtendCommand", "handle")
     ctx.saw(RENDER, "RenderCommand.handle"), ctx.saw(EXTEND, "ExtendCommand.handle")
-    reads, rwrites, _ = _alias_paths(rfn, {_toml_root(rfn): ""})
+    reads, rwrites, rvar = _alias_paths(rfn, {_toml_root(rfn): ""})
     ereads, _, _ = _alias_paths(efn, {_toml_root(efn): ""})
+    # a side is READ COMPLETELY when no table of the document is handed whole to something this rule does not follow and the number
+    # of paths found reaches the floor; "the other side has no such path" is evidence only then
+    w_esc, r_esc = _escaped_tables(cfn, wvar), _escaped_tables(rfn, rvar)
+    hidden = lambda p_, esc: any(p_ == q or p_.startswith(q + ".") or q == "" for q in esc)
     allreads = dict(reads)
     allreads.update(ereads)
     tables = {p for p in schema if any(q.startswith(p + ".") for q in schema)}
@@ -707,6 +862,9 @@ def _r1(ctx, pkg):
         file = RENDER if p in reads else EXTEND
         in_schema = p in schema
         assigned = p in leaf_writes or any(w.startswith(p + ".") for w in leaf_writes) or any(p.startswith(w + ".") for w in leaf_writes if w not in tables or w in leaf_writes)
+        if in_schema and not assigned and (hidden(p, w_esc) or len(writes) < 30):
+            ctx.unrec("R1", f"read {p}", (file, line), f"cannot tell whether the writer assigns `{p}`: the writer is not read completely (tables handed on: {sorted(w_esc)[:3]}, {len(writes)} paths found)")
+            continue
         ctx.check(in_schema and assigned, "R1", f"read {p}", (file, line),
                   f"`{p}` is in the schema and assigned by the writer" if in_schema and assigned else
                   f"the reader asks for `{p}`, which " + ("the schema does not contain" if not in_schema else "BaseConfiguration.content never assigns"),
@@ -717,6 +875,9 @@ def _r1(ctx, pkg):
         if p in tables and not p.startswith("summary"):
             continue
         used = p in allreads or any(r.startswith(p + ".") for r in allreads) or p in INFORMATIONAL or p.startswith("summary.")
+        if not used and (hidden(p, r_esc) or len(allreads) < 25):
+            ctx.unrec("R1", f"written path {p} is read", (CONF, line), f"cannot tell whether a command reads `{p}`: the reader is not read completely (tables handed on: {sorted(r_esc)[:3]}, {len(allreads)} paths found)")
+            continue
         ctx.check(used, "R1", f"written path {p} is read", (CONF, line),
                   "read back by a command (or informational by table)" if used else f"`{p}` is written but no command reads it: the setting is lost on the way to the renderer")
     ctx.floor("R1", "key paths read", len(allreads), 25)
@@ -762,7 +923,10 @@ def _r2(ctx, pkg):
         unknown = [k.arg for k in c.keywords if k.arg not in params]
         missing = [p for p in params if p not in given]
         ctx.check(not unknown, "R2", "InitCommand passes only known keywords", (INIT, c.lineno), "every keyword is a parameter of BaseConfiguration", found=str(unknown))
-        ctx.check(not missing, "R2", "InitCommand passes every setting", (INIT, c.lineno), f"all {len(params)} settings of BaseConfiguration are supplied by the init command", found=f"missing {missing}")
+        if missing and (any(k.arg is None for k in c.keywords) or any(isinstance(a, ast.Starred) for a in c.args)):
+            ctx.unrec("R2", "InitCommand passes every setting", (INIT, c.lineno), f"arguments are handed on with * / **: cannot tell whether {missing} are supplied")
+        else:
+            ctx.check(not missing, "R2", "InitCommand passes every setting", (INIT, c.lineno), f"all {len(params)} settings of BaseConfiguration are supplied by the init command", found=f"missing {missing}")
         # each keyword receives the local of the matching option (name agreement, e.g. required_species=extra_species)
         org = _option_origins(h)
         for k in c.keywords:
@@ -773,6 +937,9 @@ def _r2(ctx, pkg):
             if exp is None:
                 ctx.unrec("R2", f"InitCommand:{k.arg}=", (INIT, c.lineno), f"no option is on record for the setting `{k.arg}`")
             else:
+                if got is None:
+                    ctx.unrec("R2", f"InitCommand:{k.arg}=", (INIT, c.lineno), f"cannot tell which option `{ast.unparse(k.value)[:60]}` derives from")
+                    continue
                 ctx.check(got == exp, "R2", f"InitCommand:{k.arg}=", (INIT, c.lineno), f"`{k.arg}` receives the value parsed from --{exp}",
                           expected=f"a local derived from self.option({exp!r})", found=f"{ast.unparse(k.value)} (from --{got})")
     # species_kwargs keys
@@ -786,17 +953,24 @@ def _r2(ctx, pkg):
             looked.append((n.slice.value, n.lineno))
     stored = _kwargs_dict(h, "BaseConfiguration", "species_kwargs")
     sp_params = {a.arg for a in pkg.method("Species", "__init__").args.args} - {"self", "name"}
-    rh = pkg.method("RenderCommand", "handle")
+    rh = _render_handle(pkg)
     rstored = _kwargs_dict(rh, "Network", "species_kwargs")
     ctx.floor("R2", "species_kwargs lookups", len(looked), 3, (CONF, cfn.lineno))
     for key, line in looked:
         ok = key in stored and key in sp_params
+        if not ok and not stored:
+            ctx.unrec("R2", f"species_kwargs[{key!r}]", (CONF, line), "the keys the init command stores in species_kwargs were not found (not a dict display bound to the keyword)")
+            continue
         ctx.check(ok, "R2", f"species_kwargs[{key!r}]", (CONF, line),
                   f"`{key}` is stored by the init command and is a parameter of Species" if ok else
                   f"the writer looks up species_kwargs[{key!r}], which the init command never stores (keys: {sorted(stored)}): the configured value is ignored and the default written",
                   expected=f"one of {sorted(stored & sp_params)}", found=key)
-    ctx.check(stored == sp_params == rstored, "R2", "species_kwargs keys", (INIT, h.lineno), "init.py, render.py and Species.__init__ agree on the symbol keywords",
-              found=f"init {sorted(stored)}, render {sorted(rstored)}, Species {sorted(sp_params)}")
+    if not stored or not rstored or not sp_params:
+        # a side whose key table was not found (built another way than a dict display bound to the keyword) says nothing about agreement
+        ctx.unrec("R2", "species_kwargs keys", (INIT, h.lineno), f"the symbol keywords of one side were not found: init {sorted(stored)}, render {sorted(rstored)}, Species {sorted(sp_params)}")
+    else:
+        ctx.check(stored == sp_params == rstored, "R2", "species_kwargs keys", (INIT, h.lineno), "init.py, render.py and Species.__init__ agree on the symbol keywords",
+                  found=f"init {sorted(stored)}, render {sorted(rstored)}, Species {sorted(sp_params)}")
 
 
 def _r3(ctx, pkg):
@@ -825,7 +999,10 @@ def _r3(ctx, pkg):
     used -= {"select", "dry", "path"}
     ctx.floor("R3", "options composed by the example command", len(used), 20)
     for o in sorted(used):
-        ctx.check(o in decl, "R3", f"--{o}", (EXAMPLE, h.lineno), f"--{o} is an option of `naunet init`")
+        if not decl:
+            ctx.unrec("R3", f"--{o}", (EXAMPLE, h.lineno), "the option declarations of `naunet init` were not found (not a list of option(..) calls)")
+        else:
+            ctx.check(o in decl, "R3", f"--{o}", (EXAMPLE, h.lineno), f"--{o} is an option of `naunet init`")
 
 
 _READER_METHODS = {"split", "rsplit", "strip", "lstrip", "rstrip", "replace", "items", "keys", "values", "get", "append", "extend", "setdefault", "update", "lower", "upper",
@@ -960,6 +1137,11 @@ def _r4_r6_r7(ctx, pkg):
                     if isinstance(c, ast.Call) and isinstance(c.func, ast.Attribute) and c.func.attr == "split" and c.args and isinstance(c.args[0], ast.Constant) and c.args[0].value == ":":
                         n6 += 1
                         maxsplit = len(c.args) > 1 or any(k.arg == "maxsplit" for k in c.keywords)
+                        if not maxsplit and any(isinstance(j, ast.Call) and isinstance(j.func, ast.Attribute) and j.func.attr == "join" and isinstance(j.func.value, ast.Constant)
+                                                and j.func.value.value == ":" for sc_ in _option_scopes(pkg, ih, opt6)[0] for j in ast.walk(sc_)):
+                            # the pieces are put together again with ':' somewhere in the parser: whether the tail survives is not read here
+                            ctx.unrec("R6", f"--{opt6}: split(':')", (INIT, n.lineno), f"`{ast.unparse(c)[:60]}` cuts at every ':' and the parser re-joins pieces with ':' -- not decided here")
+                            continue
                         ctx.check(maxsplit, "R6", f"--{opt6}: split(':')", (INIT, n.lineno),
                                   "the expression after the first ':' is kept whole (maxsplit)" if maxsplit else
                                   "the option value is cut at every ':' and the pieces are read by index [0], [1]: an expression containing ':' (a C conditional) is silently truncated",
@@ -1153,47 +1335,119 @@ def _r5_example(ctx, pkg, table, allm):
 
 
 def _r8(ctx, pkg):
-    rh = pkg.method("RenderCommand", "handle")
-    installs = {}
-    first_species = None
-    for n in ast.walk(rh):
-        if isinstance(n, ast.Assign) and ast.unparse(n.targets[0]) == "Species._replacement":
-            installs["Species._replacement"] = n.lineno
-        if isinstance(n, ast.Call):
-            f = ast.unparse(n.func)
-            if f in ("Species.set_known_elements", "Species.set_known_pseudoelements"):
-                installs[f] = n.lineno
-            if f == "Species" and (first_species is None or n.lineno < first_species):
-                first_species = n.lineno
+    rh = _render_handle(pkg)
+    # events in execution order: the statements of handle() as they run (bodies of nested defs / lambdas run when called: a call of a
+    # local def that builds a Species counts as a construction at the call)
+    builders = {d.name for d in ast.walk(rh) if isinstance(d, (ast.FunctionDef, ast.AsyncFunctionDef)) and d is not rh
+                and any(isinstance(c, ast.Call) and ast.unparse(c.func) == "Species" for c in ast.walk(d))}
+    events = []
+
+    def scan(node):
+        for ch in ast.iter_child_nodes(node):
+            if isinstance(ch, (ast.FunctionDef, ast.AsyncFunctionDef, ast.Lambda, ast.ClassDef)):
+                continue
+            scan(ch)
+            if isinstance(ch, ast.Assign) and ast.unparse(ch.targets[0]) == "Species._replacement":
+                events.append(("Species._replacement", ch))
+            if isinstance(ch, ast.Call):
+                f = ast.unparse(ch.func)
+                if f in ("Species.set_known_elements", "Species.set_known_pseudoelements"):
+                    events.append((f, ch))
+                elif f == "Species" or f in builders:
+                    events.append(("Species(..)", ch))
+
+    def in_order(stmts):
+        for st in stmts:
+            if isinstance(st, (ast.FunctionDef, ast.AsyncFunctionDef, ast.ClassDef)):
+                continue
+            heads = [getattr(st, a) for a in ("value", "test", "iter") if isinstance(getattr(st, a, None), ast.AST)] + \
+                [i.context_expr for i in getattr(st, "items", [])] + (list(st.targets) if isinstance(st, ast.Assign) else [])
+            if isinstance(st, ast.Assign) and ast.unparse(st.targets[0]) == "Species._replacement":
+                for h_ in heads:
+                    scan_expr(h_)
+                events.append(("Species._replacement", st))
+            else:
+                for h_ in heads:
+                    scan_expr(h_)
+            for fld in ("body", "orelse", "finalbody"):
+                b = getattr(st, fld, None)
+                if isinstance(b, list) and b and isinstance(b[0], ast.stmt):
+                    in_order(b)
+            for hd in getattr(st, "handlers", []) or []:
+                in_order(hd.body)
+
+    def scan_expr(e):
+        for c in ast.walk(e):
+            if isinstance(c, (ast.Lambda,)):
+                continue
+            if isinstance(c, ast.Call):
+                f = ast.unparse(c.func)
+                if f in ("Species.set_known_elements", "Species.set_known_pseudoelements"):
+                    events.append((f, c))
+                elif f == "Species" or f in builders:
+                    events.append(("Species(..)", c))
+    in_order(rh.body)
+    first_species = next((i for i, (k, _) in enumerate(events) if k == "Species(..)"), None)
     for name in ("Species._replacement", "Species.set_known_elements", "Species.set_known_pseudoelements"):
-        line = installs.get(name)
-        ok = line is not None and (first_species is None or line < first_species)
-        ctx.check(ok, "R8", f"RenderCommand installs {name} first", (RENDER, line or rh.lineno),
+        pos = next((i for i, (k, _) in enumerate(events) if k == name), None)
+        if pos is None:
+            # not installed by a statement of handle() this rule reads (another spelling, a helper): R12 decides whether the value arrives
+            ctx.unrec("R8", f"RenderCommand installs {name} first", (RENDER, rh.lineno), f"no statement of RenderCommand.handle was recognised as the installation of {name}")
+            continue
+        ok = first_species is None or pos < first_species
+        line = events[pos][1].lineno
+        ctx.check(ok, "R8", f"RenderCommand installs {name} first", (RENDER, line),
                   f"{name} is installed before any Species is constructed" if ok else
-                  f"{name} is installed at line {line} but a Species(..) is constructed at line {first_species}: names in the binding-energy / yield tables are parsed with the "
-                  "previous tables and configured values silently fall back to the built-in ones",
+                  f"{name} is installed at line {line} but a Species(..) is constructed at line {events[first_species][1].lineno}, earlier in the run: names in the binding-energy / yield tables "
+                  "are parsed with the previous tables and configured values silently fall back to the built-in ones",
                   expected="installation before the first Species(..)")
     # the values installed are the ones read from the file
     _, _, var = _alias_paths(rh, {_toml_root(rh): ""}, derive=True)
     inst = {}
     for n in ast.walk(rh):
-        if isinstance(n, ast.Assign) and ast.unparse(n.targets[0]) == "Species._replacement" and isinstance(n.value, ast.Name):
-            inst["replacement"] = var.get(n.value.id)
-        if isinstance(n, ast.Call) and ast.unparse(n.func) in ("Species.set_known_elements", "Species.set_known_pseudoelements") and n.args and isinstance(n.args[0], ast.Name):
-            inst["elements" if n.func.attr == "set_known_elements" else "pseudo_elements"] = var.get(n.args[0].id)
-    ctx.check(inst == {k: f"chemistry.element.{k}" for k in ("replacement", "elements", "pseudo_elements")},
-              "R8", "RenderCommand installs the configured tables", (RENDER, rh.lineno), "the installed tables are chemistry.element.{replacement, elements, pseudo_elements} of the file", found=str(inst))
+        if isinstance(n, ast.Assign) and ast.unparse(n.targets[0]) == "Species._replacement":
+            inst["replacement"] = var.get(n.value.id) if isinstance(n.value, ast.Name) else None
+        if isinstance(n, ast.Call) and ast.unparse(n.func) in ("Species.set_known_elements", "Species.set_known_pseudoelements") and n.args:
+            inst["elements" if n.func.attr == "set_known_elements" else "pseudo_elements"] = var.get(n.args[0].id) if isinstance(n.args[0], ast.Name) else None
+    want_inst = {k: f"chemistry.element.{k}" for k in ("replacement", "elements", "pseudo_elements")}
+    # understood and wrong: a table of ANOTHER configuration path is installed; a value whose origin is not followed is not read here
+    _three(ctx, inst == want_inst, all(v is not None for v in inst.values()) and len(inst) == 3, "R8", "RenderCommand installs the configured tables", (RENDER, rh.lineno),
+           "the installed tables are chemistry.element.{replacement, elements, pseudo_elements} of the file", found=str(inst))
     # Network(...) receives every setting read
     calls = [c for c in ast.walk(rh) if isinstance(c, ast.Call) and ast.unparse(c.func) == "Network"]
     if calls:
-        kw = {k.arg: (var.get(k.value.id) if isinstance(k.value, ast.Name) else None) for k in calls[0].keywords}
+        opaque = any(k.arg is None for k in calls[0].keywords) or bool(calls[0].args)
+        kw = {k.arg: (var.get(k.value.id) if isinstance(k.value, ast.Name) else _single_path(k.value, var)) for k in calls[0].keywords if k.arg}
         want = {"filelist": "chemistry.network.files", "fileformats": "chemistry.network.formats", "elements": "chemistry.element.elements", "pseudo_elements": "chemistry.element.pseudo_elements",
                 "allowed_species": "chemistry.species.allowed", "required_species": "chemistry.species.required", "grain_model": "chemistry.grain.model",
                 "heating": "chemistry.thermal.heating", "cooling": "chemistry.thermal.cooling", "shielding": "chemistry.shielding", "rate_modifier": "chemistry.rate_modifier",
                 "ode_modifier": "chemistry.ode_modifier"}
         for k, v in want.items():
-            ctx.check(kw.get(k) == v, "R8", f"Network({k}=)", (RENDER, calls[0].lineno), f"Network receives the configured `{v}` as `{k}`", expected=v, found=str(kw.get(k)))
-        ctx.check(any(k.arg == "species_kwargs" for k in calls[0].keywords), "R8", "Network(species_kwargs=)", (RENDER, calls[0].lineno), "Network receives the symbol keywords")
+            # understood and wrong: the keyword receives ANOTHER configured value, or is absent from a call written out in full; a value
+            # whose origin is not followed / arguments handed on with * or ** are not read here
+            sure = (k in kw and kw[k] is not None) or (k not in kw and not opaque)
+            _three(ctx, kw.get(k) == v, sure, "R8", f"Network({k}=)", (RENDER, calls[0].lineno), f"Network receives the configured `{v}` as `{k}`", expected=v, found=str(kw.get(k)))
+        if not any(k.arg == "species_kwargs" for k in calls[0].keywords) and opaque:
+            ctx.unrec("R8", "Network(species_kwargs=)", (RENDER, calls[0].lineno), "arguments are handed on with * / **")
+        else:
+            ctx.check(any(k.arg == "species_kwargs" for k in calls[0].keywords), "R8", "Network(species_kwargs=)", (RENDER, calls[0].lineno), "Network receives the symbol keywords")
+
+
+def _single_path(e, var):
+    """the one configuration path the locals of an expression stand for (a converted copy written in place: `{int(k): v for k, v in
+    rate_modifier.items()}`), else None"""
+    ps = {var[x.id] for x in ast.walk(e) if isinstance(x, ast.Name) and x.id in var and var[x.id]}
+    return next(iter(ps)) if len(ps) == 1 else None
+
+
+def _three(ctx, ok, sure, rule, key, where, msg, expected=None, found=None):
+    """DISCHARGED / VIOLATION only when the construct was understood (`sure`) / else UNRECOGNISED"""
+    if ok:
+        ctx.ok(rule, key, where, msg)
+    elif sure:
+        ctx.bad(rule, key, where, msg, expected, found)
+    else:
+        ctx.unrec(rule, key, where, f"not read completely ({msg[:80]}): {str(found)[:120]}")
 
 
 MUTANTS = [
